@@ -55,6 +55,8 @@ pub fn sleep(d: Duration) {
     with(|w| w.sleep(d))
 }
 
+/// A simulated byte stream (file or TCP connection).  The socket / file
+/// housekeeping calls a reader might make are accepted and do nothing.
 pub struct Stream(u64);
 
 impl io::Read for Stream {
@@ -63,29 +65,82 @@ impl io::Read for Stream {
     }
 }
 
+impl io::Read for &Stream {
+    fn read(&mut self, buf: &mut [u8]) -> io::Result<usize> {
+        with(|w| w.read(self.0, buf))
+    }
+}
+
+impl Stream {
+    pub fn set_read_timeout(&self, _d: Option<Duration>) -> io::Result<()> {
+        Ok(())
+    }
+    pub fn set_write_timeout(&self, _d: Option<Duration>) -> io::Result<()> {
+        Ok(())
+    }
+    pub fn set_nodelay(&self, _on: bool) -> io::Result<()> {
+        Ok(())
+    }
+    pub fn set_nonblocking(&self, _on: bool) -> io::Result<()> {
+        Ok(())
+    }
+    pub fn set_ttl(&self, _ttl: u32) -> io::Result<()> {
+        Ok(())
+    }
+    pub fn shutdown(&self, _how: std::net::Shutdown) -> io::Result<()> {
+        Ok(())
+    }
+    pub fn take_error(&self) -> io::Result<Option<io::Error>> {
+        Ok(None)
+    }
+    pub fn try_clone(&self) -> io::Result<Stream> {
+        Ok(Stream(self.0))
+    }
+    pub fn peer_addr(&self) -> io::Result<std::net::SocketAddr> {
+        Ok(std::net::SocketAddr::from(([127, 0, 0, 1], 30002)))
+    }
+    pub fn local_addr(&self) -> io::Result<std::net::SocketAddr> {
+        Ok(std::net::SocketAddr::from(([127, 0, 0, 1], 1)))
+    }
+}
+
 pub struct TcpStream;
 
 impl TcpStream {
-    pub fn connect(addr: &str) -> io::Result<Stream> {
-        with(|w| w.connect(addr)).map(Stream)
+    /// Accepts whatever `std::net::TcpStream::connect` is usually given (a
+    /// string, a `(host, port)` pair, a socket address): only its text form
+    /// reaches the world.
+    pub fn connect<A: std::fmt::Debug>(addr: A) -> io::Result<Stream> {
+        let text = format!("{:?}", addr);
+        with(|w| w.connect(&text)).map(Stream)
+    }
+
+    pub fn connect_timeout<A: std::fmt::Debug>(addr: A, _timeout: Duration) -> io::Result<Stream> {
+        Self::connect(addr)
     }
 }
 
 pub struct File;
 
 impl File {
-    pub fn open(path: &str) -> io::Result<Stream> {
-        with(|w| w.open(path)).map(Stream)
+    pub fn open<P: AsRef<std::path::Path>>(path: P) -> io::Result<Stream> {
+        let text = path.as_ref().to_string_lossy().to_string();
+        with(|w| w.open(&text)).map(Stream)
     }
 
     /// Output files (`-D`) stay real files.
-    pub fn create(path: &str) -> io::Result<std::fs::File> {
+    pub fn create<P: AsRef<std::path::Path>>(path: P) -> io::Result<std::fs::File> {
         std::fs::File::create(path)
     }
 }
 
 pub mod thread {
     pub use std::thread::*;
+
+    /// `thread::sleep` goes to the world as well (shadows the glob import).
+    pub fn sleep(d: std::time::Duration) {
+        super::sleep(d)
+    }
 }
 
 macro_rules! print {
